@@ -346,6 +346,13 @@ func (c *compiler) compileExpList(exps []ast.ExpNode, dstRegs []ir.Register) {
 		c.TakeRegister(dst)
 		dstRegs[i] = dst
 	}
+	if len(exps) > len(dstRegs) {
+		// More values than needed: the excess values are thrown away, but
+		// their expressions are still evaluated.
+		for _, exp := range exps[commonCount:] {
+			c.compileExpNoDestHint(exp)
+		}
+	}
 	if doTailExp {
 		c.compileTailExp(tailExp, dstRegs[commonCount:])
 	} else if len(dstRegs) > len(exps) {
